@@ -485,6 +485,17 @@ func (e *Engine) slice(fr *frame, x *ssa.Slice) Value {
 			nc = Bin("bvsub", mx, lo)
 		}
 		r := SliceV{sa: b.sa, cells: b.cells, off: Bin("bvadd", b.off, lo), len: Bin("bvsub", hi, lo), cap: nc, isNil: b.isNil}
+		if b.sa != nil {
+			if r.off.Op != "c" {
+				r.off = e.uniqueValue(r.off)
+			}
+			if r.len.Op != "c" {
+				r.len = e.uniqueValue(r.len)
+			}
+			if r.cap.Op != "c" {
+				r.cap = e.uniqueValue(r.cap)
+			}
+		}
 		if b.sa == nil && b.cells != nil {
 			if r.off.Op != "c" {
 				r.off = e.uniqueValue(r.off)
